@@ -392,9 +392,12 @@ Section WithQuery.
   (* dynamic.rs                                                                            *)
   (* ==================================================================================== *)
 
-  (* compute_candidate_from_operation, for one (context, tagged value) pair.
-     `nullable_ranges` = the null_included flag of the ranges built: true in
-     compute_candidate_from_operation, false in resolve_fold_specific_field.
+  (* compute_candidate_from_operation (nullable_ranges = true) and the match of
+     resolve_fold_specific_field (nullable_ranges = false), for one (context, tagged value) pair.
+     `nullable_ranges` is the null_included flag of the ranges built; it also tells the two functions
+     apart: only compute_candidate_from_operation checks `matches!(value, FieldValue::Null)` first and
+     yields Impossible for <, <=, >, >=, one_of (repair of F17); resolve_fold_specific_field still calls
+     Range::with_end/with_start / as_slice() directly (its values are fold counts, never null).
      N.B. GreaterThanOrEqual builds Range::with_end (an UPPER bound): defect F10. *)
   Definition cand_from_op (nullable_ranges : bool) (op : opk) (initial : cand fv) (t : tagged) : res (cand fv) :=
     match op with
@@ -405,15 +408,20 @@ Section WithQuery.
             match op with
             | Equals => f_intersect initial (Single value)
             | NotEquals => f_exclude initial value
-            | LessThan => do r <- f_range_with_end (Excl value) nullable_ranges; f_intersect initial (CRange r)
-            | LessThanOrEqual => do r <- f_range_with_end (Incl value) nullable_ranges; f_intersect initial (CRange r)
-            | GreaterThan => do r <- f_range_with_start (Excl value) nullable_ranges; f_intersect initial (CRange r)
-            | GreaterThanOrEqual => do r <- f_range_with_end (Incl value) nullable_ranges; f_intersect initial (CRange r)
-            | _ (* OneOf *) =>
-                match value with
-                | List l => f_intersect initial (Multiple l)
-                | _ => Panic "dynamic.rs: field produced an invalid value when resolving @tag"
-                end
+            | _ =>
+                if nullable_ranges && fv_is_null value then Ok Impossible
+                else
+                  match op with
+                  | LessThan => do r <- f_range_with_end (Excl value) nullable_ranges; f_intersect initial (CRange r)
+                  | LessThanOrEqual => do r <- f_range_with_end (Incl value) nullable_ranges; f_intersect initial (CRange r)
+                  | GreaterThan => do r <- f_range_with_start (Excl value) nullable_ranges; f_intersect initial (CRange r)
+                  | GreaterThanOrEqual => do r <- f_range_with_end (Incl value) nullable_ranges; f_intersect initial (CRange r)
+                  | _ (* OneOf *) =>
+                      match value with
+                      | List l => f_intersect initial (Multiple l)
+                      | _ => Panic "dynamic.rs: field produced an invalid value when resolving @tag"
+                      end
+                  end
             end
         end
     | _ => Panic "dynamic.rs: unreachable unsupported 'operation'"
@@ -531,8 +539,10 @@ Definition ge_tag_filter (f : vfilter) : bool :=
 Definition k_ge_tag_hint (q : ir_query) : bool :=
   existsb (fun v => existsb ge_tag_filter (v_filters v)) (all_vertices (q_comp q)).
 
-(* K-null-tag-hint (F17): the tag value a dynamic hint is resolved with is null and the chosen
-   operator bounds a range with it (<, <=, >, >=) or reads it as a list (one_of) *)
+(* the former class K-null-tag-hint (F17, repaired in compute_candidate_from_operation): the tag value
+   a dynamic hint is resolved with is null and the chosen operator bounds a range with it
+   (<, <=, >, >=) or reads it as a list (one_of).  It is still the panic condition of
+   resolve_fold_specific_field, whose values (fold counts) are never null. *)
 Definition k_null_tag_hint (op : opk) (w : fv) : bool :=
   fv_is_null w && (is_cmp_op op || opk_eqb op OneOf).
 
